@@ -14,12 +14,14 @@ from typing import Any
 from . import program
 
 
-def _normalise(world: str, heavy: bool, programs: list, cancels: list, swarm: dict, seed: int) -> dict:
+def _normalise(world: str, heavy: bool, programs: list, cancels: list, swarm: dict, seed: int, async_at: list) -> dict:
     """Makes drawn data a valid spec: unique uids / actor ids, world constraints, bounds."""
     uid = 0
     next_cid = len(programs)
     spawned = 0
     task = world == 'task'
+
+    pending: list[int] = []  # prebuilt Config objects of the actor being normalised
 
     def fix_body(body: list, sync: bool, depth: int) -> list:
         nonlocal uid, next_cid, spawned
@@ -31,6 +33,18 @@ def _normalise(world: str, heavy: bool, programs: list, cancels: list, swarm: di
                     continue
                 uid += 1
                 out.append(['BLOCK', uid, dict(stmt[2]), fix_body(stmt[3], sync, depth + 1)])
+            elif kind == 'CONSTRUCT':
+                uid += 1
+                out.append(['CONSTRUCT', uid, dict(stmt[2])])
+            elif kind == 'PREBUILD':
+                uid += 1
+                pending.append(uid)
+                out.append(['PREBUILD', uid, dict(stmt[2])])
+            elif kind == 'ENTER':
+                if pending and depth < 8:
+                    out.append(['ENTER', pending.pop(stmt[1] % len(pending)), fix_body(stmt[2], sync, depth + 1)])
+                else:
+                    out.extend(fix_body(stmt[2], sync, depth))
             elif kind == 'TRY':
                 catch = stmt[2]
                 if catch == 'cancel' and not task:
@@ -42,7 +56,11 @@ def _normalise(world: str, heavy: bool, programs: list, cancels: list, swarm: di
                 spawned += 1
                 cid = next_cid
                 next_cid += 1
-                out.append(['SPAWN', cid, fix_body(stmt[2], False if task else sync, 0)])
+                saved = list(pending)
+                pending.clear()
+                child = fix_body(stmt[2], False if task else sync, 0)
+                pending[:] = saved
+                out.append(['SPAWN', cid, child])
             elif kind == 'JOIN':
                 if task and sync:
                     continue
@@ -69,7 +87,10 @@ def _normalise(world: str, heavy: bool, programs: list, cancels: list, swarm: di
                 out.append(list(stmt))
         return out
 
-    progs = [fix_body(p, False, 0) for p in programs]
+    progs = []
+    for p in programs:
+        pending.clear()
+        progs.append(fix_body(p, False, 0))
     # JOIN targets: map small integers onto spawned actor ids
     cids = [s[1] for p in progs for s in program.iter_statements(p) if s[0] == 'SPAWN']
     for p in progs:
@@ -84,6 +105,7 @@ def _normalise(world: str, heavy: bool, programs: list, cancels: list, swarm: di
         'swarm': dict(swarm, world=world, heavy=heavy, actors=len(progs)),
         'programs': progs,
         'cancels': sorted([round(t, 4), ids[a % len(ids)]] for t, a in cancels) if task else [],
+        'async_at': sorted(set(async_at)) if (not task and swarm.get('fine')) else [],
         'decisions': None,
         'generator': 'hypothesis',
     }
@@ -106,7 +128,7 @@ def spec_strategy(heavy: bool):
         optional={
             'solver': solver,
             'throw': st.booleans(),
-            'options': st.sampled_from(['E', 'P', 'Y', 'PY'] if heavy else ['E', 'P']),
+            'options': st.sampled_from(['E', 'P', 'Y', 'PY', 'S'] if heavy else ['E', 'P', 'S']),
             'callback': st.sampled_from(['u', 'u', 'u', 'D', 'R'] if heavy else ['u']),
         },
     ).filter(lambda d: len(d) >= 1)
@@ -118,7 +140,9 @@ def spec_strategy(heavy: bool):
         st.builds(lambda s: ['CREATE', s], st.sampled_from(list(program.SHAPES[:-1]))),
         st.builds(lambda s: ['CREATE', s], st.sampled_from(list(program.SHAPES) if heavy else list(program.SHAPES[:-1]))),
         st.just(['BADCONFIG']),
-        st.builds(lambda k: ['RAISE', k], st.sampled_from(['exc', 'base'])),
+        st.builds(lambda k: ['CONSTRUCT', 0, k], kw),
+        st.builds(lambda k: ['RAISE', k], st.sampled_from(list(program.RAISES))),
+        st.builds(lambda k: ['PREBUILD', 0, k], kw),
         st.builds(lambda k, r: ['ROUNDTRIP', k, r], small, st.sampled_from(program.ROUNDTRIPS)),
         st.builds(lambda k: ['JOIN', k], small),
         st.builds(lambda d: ['SLEEP', d], st.sampled_from(program.SLEEPS)),
@@ -144,6 +168,7 @@ def spec_strategy(heavy: bool):
             st.builds(lambda b, c: ['TRY', b, c], body, st.sampled_from(['exc', 'base', 'cancel'])),
             st.builds(lambda b: ['SPAWN', 0, b], body),
             st.builds(lambda b: ['CTXRUN', b], body),
+            st.builds(lambda k, b: ['ENTER', k, b], small, body),
             st.builds(lambda d, b: ['TIMEOUT', d, b], st.sampled_from([0.0005, 0.2, 5, 1e6]), body),
             st.builds(lambda b: ['TOTHREAD', b], body),
         )
@@ -169,12 +194,13 @@ def spec_strategy(heavy: bool):
     )
     cancels = st.lists(st.tuples(st.floats(0, 30, allow_nan=False), st.integers(0, 9)), max_size=3)
     return st.builds(
-        lambda w, ps, cs, sw, seed: _normalise(w, heavy, ps, cs, sw, seed),
+        lambda w, ps, cs, sw, seed, aa: _normalise(w, heavy, ps, cs, sw, seed, aa),
         world,
         st.lists(prog, min_size=1, max_size=4),
         cancels,
         swarm,
         st.integers(0, 2**40),
+        st.lists(st.integers(1, 120), max_size=2),
     )
 
 
